@@ -575,6 +575,14 @@ def oracle_C16(hi, ops, obs):
                 and not b['halt'] and 'pool' in b and prev.get('pool') and not any(v[2] for v in ob['votes']) and not ob.get('evid'):
             if b['pool'][2] != prev['pool'][2] or b['pool'][0] + b['pool'][1] != prev['pool'][0] + prev['pool'][1]:
                 out.append(Viol(hi, b['h'], 'params-moved-funds', f"pools/supply {prev['pool']} -> {b['pool']}"))
+        # … and no validator's commission moves in a block unless the validator edited it itself (the commission rates of the
+        # records are read straight from x/staking: `VCOM`)
+        if okl and any(lf.kind == 'PARAMS' for lf in okl) and 'vcom' in b and prev.get('vcom') and not b['halt']:
+            edited = set(sg for (_, sg, lf) in successful_leaves(ob, b) if lf.kind == 'EDIT')
+            for op, vc in b['vcom'].items():
+                if op in prev['vcom'] and op not in edited and vc != prev['vcom'][op]:
+                    out.append(Viol(hi, b['h'], 'params-changed-commission', f"op {op}: {prev['vcom'][op]} -> {vc}"))
+                    break
         if out: break
     return out
 
